@@ -55,3 +55,15 @@ package dedupebuffer
 //@   option safety off
 //@   option callpre off
 //@   ghost at call queueUpdate: check arg1 == key && arg2.KVPair.Key == key && arg2.KVPair.Value == nil && arg2.UpdateType == api.UpdateTypeKVDeleted
+
+//@ -- an in-sync report that ends a resync always triggers the clean-up of keys not seen - also when the status
+//@ -- itself is a duplicate of the last one received (a restart does not reset the remembered status)
+//@ ghost c25Cleaned bool
+//@ func (*DedupeBuffer).OnStatusUpdated
+//@   property C25
+//@   option safety off
+//@   option callpre off
+//@   option stable (*DedupeBuffer).liveKeysNotSeenSinceReconnect
+//@   requires d != nil && !c25Cleaned
+//@   ghost at call onInSyncAfterReconnection: c25Cleaned = true
+//@   ensures (status == api.InSync && old(d.liveKeysNotSeenSinceReconnect) != nil) ==> c25Cleaned
